@@ -218,6 +218,28 @@ def oracle(case, obs):
     return None
 
 
+def observed_range(prog, k=0):
+    """(min, max, exact) of everything that went into histogram k of a mode-"f" program: the observed range C14 speaks
+    about.  exact is False once a bare merge() was involved (merge is held to 'within the true range' only)."""
+    items, exact = {}, {}
+    for op in prog:
+        kind = op[0]
+        if kind == "new":
+            items[op[1]], exact[op[1]] = [], True
+        elif kind == "upd":
+            items[op[1]].append(Fraction(float.fromhex(op[2])))
+        elif kind == "bulk":
+            items[op[1]].extend(Fraction(float.fromhex(x)) for x in op[2])
+        elif kind in ("merge", "add"):
+            items[op[1]] = items[op[1]] + items[op[2]]
+            exact[op[1]] = exact[op[1]] and exact[op[2]] and kind == "add"
+        elif kind == "loadb":
+            return None
+    if not items.get(k):
+        return None
+    return min(items[k]), max(items[k]), exact[k]
+
+
 def known_still_fails(fid, w):
     if fid != "F-C13-3":
         return None
